@@ -118,7 +118,7 @@ class RowSource:
         b = default_border(size) if border is None else border
         typed = typed and self.typed is not None
         for y in range((h + 2 * b) * s):
-            yield [self._cell(y // s - b, x // s - b, qz, typed) for x in range((w + 2 * b) * s)]
+            yield tuple(self._cell(y // s - b, x // s - b, qz, typed) for x in range((w + 2 * b) * s))      # rows are tuples, as matrix_iter yields them
 
     def plain(self, matrix, matrix_size, scale=1, border=None):
         # matrix_iter: dark / light only, whatever the caller wants to do with module types
